@@ -2101,12 +2101,16 @@ impl Ord for OwnedTerm {
                     })
                 }
                 (OwnedTerm::Map(a), OwnedTerm::Map(b)) => a.len().cmp(&b.len()).then_with(|| {
-                    for ((k1, v1), (k2, v2)) in a.iter().zip(b.iter()) {
-                        match k1.cmp(k2) {
-                            Ordering::Equal => match v1.cmp(v2) {
-                                Ordering::Equal => continue,
-                                other => return other,
-                            },
+                    // Erlang compares maps by size, then all keys, then all values
+                    for (k1, k2) in a.keys().zip(b.keys()) {
+                        match compare_map_keys(k1, k2) {
+                            Ordering::Equal => continue,
+                            other => return other,
+                        }
+                    }
+                    for (v1, v2) in a.values().zip(b.values()) {
+                        match v1.cmp(v2) {
+                            Ordering::Equal => continue,
                             other => return other,
                         }
                     }
@@ -2460,6 +2464,22 @@ impl OwnedTerm {
     pub fn list_builder() -> ListBuilder {
         ListBuilder::new()
     }
+}
+
+/// Map keys follow the term order, except that an integer sorts before the float it equals
+/// (`#{1 => a}` and `#{1.0 => a}` are different maps).
+fn compare_map_keys(a: &OwnedTerm, b: &OwnedTerm) -> Ordering {
+    a.cmp(b).then_with(|| match (a, b) {
+        (OwnedTerm::Integer(_) | OwnedTerm::BigInt(_), OwnedTerm::Float(_)) => Ordering::Less,
+        (OwnedTerm::Float(_), OwnedTerm::Integer(_) | OwnedTerm::BigInt(_)) => Ordering::Greater,
+        (OwnedTerm::Tuple(x), OwnedTerm::Tuple(y)) => x
+            .iter()
+            .zip(y.iter())
+            .map(|(x, y)| compare_map_keys(x, y))
+            .find(|o| *o != Ordering::Equal)
+            .unwrap_or(Ordering::Equal),
+        _ => Ordering::Equal,
+    })
 }
 
 /// Elements and (for improper lists) the tail of any list-like term.
